@@ -145,16 +145,59 @@ func vmArms(c *Ctx) (map[string]*ssa.Function, map[string]bool) {
 	return handlers, has
 }
 
-func callsReadOperand(fn *ssa.Function) bool {
+// handlerBody: an opcode handler together with the helpers it delegates to - methods of the VM it calls statically
+// that are not themselves part of the dispatch (nothing from which executeInstruction can be reached: a nested run of
+// an embedded body is another instruction stream).
+func handlerBody(fn *ssa.Function) []*ssa.Function {
 	if fn == nil {
-		return false
+		return nil
 	}
-	r := false
-	eachCall(fn, func(call ssa.CallInstruction) {
-		if callName(call) == vmPath+".VM.readOperand" {
-			r = true
+	var reachesDispatch func(f *ssa.Function, seen map[*ssa.Function]bool) bool
+	reachesDispatch = func(f *ssa.Function, seen map[*ssa.Function]bool) bool {
+		if seen[f] || len(seen) > 400 {
+			return false
 		}
-	})
+		seen[f] = true
+		if f.Name() == "executeInstruction" {
+			return true
+		}
+		r := false
+		for _, g := range withAnon(f) {
+			eachCall(g, func(call ssa.CallInstruction) {
+				if sf := staticFn(call); sf != nil && sf.Pkg == fn.Pkg && !r {
+					r = reachesDispatch(sf, seen)
+				}
+			})
+		}
+		return r
+	}
+	out := []*ssa.Function{fn}
+	seen := map[*ssa.Function]bool{fn: true}
+	for i := 0; i < len(out) && i < 16; i++ {
+		eachCall(out[i], func(call ssa.CallInstruction) {
+			sf := staticFn(call)
+			if sf == nil || seen[sf] || sf.Pkg != fn.Pkg || sf.Signature.Recv() == nil || !typeIs(sf.Signature.Recv().Type(), vmPath, "VM") {
+				return
+			}
+			if sf.Name() == "readOperand" || reachesDispatch(sf, map[*ssa.Function]bool{}) {
+				return
+			}
+			seen[sf] = true
+			out = append(out, sf)
+		})
+	}
+	return out
+}
+
+func callsReadOperand(fn *ssa.Function) bool {
+	r := false
+	for _, f := range handlerBody(fn) {
+		eachCall(f, func(call ssa.CallInstruction) {
+			if callName(call) == vmPath+".VM.readOperand" {
+				r = true
+			}
+		})
+	}
 	return r
 }
 
@@ -164,7 +207,16 @@ func operandAssignedToPC(fn *ssa.Function) bool {
 		return false
 	}
 	r := false
-	eachInstr(fn, func(_ *ssa.BasicBlock, _ int, ins ssa.Instruction) {
+	for _, f := range handlerBody(fn) {
+		eachInstr(f, func(_ *ssa.BasicBlock, _ int, ins ssa.Instruction) {
+			operandStoreToPC(ins, &r)
+		})
+	}
+	return r
+}
+
+func operandStoreToPC(ins ssa.Instruction, r *bool) {
+	{
 		st, ok := ins.(*ssa.Store)
 		if !ok || !isStoreToField(st, "VM", "pc") {
 			return
@@ -175,10 +227,9 @@ func operandAssignedToPC(fn *ssa.Function) bool {
 		})
 		relative := derivesFrom(st.Val, func(v ssa.Value) bool { return loadedFromField(v, "VM", "pc") })
 		if fromOperand && !relative {
-			r = true // absolute target: must be relocated by the compiler; pc += n (skip) is position independent
+			*r = true // absolute target: must be relocated by the compiler; pc += n (skip) is position independent
 		}
-	})
-	return r
+	}
 }
 
 // opcodeTableRule checks agreement of all opcode tables. Used by C02-R1 and C10-R1.
